@@ -16,6 +16,12 @@
 (* Readers (to_pandas, dtypes, statistics, ...) look names up in           *)
 (* root["children"]; serialisers (pickle) iterate over the element dicts.  *)
 (*                                                                         *)
+(* Filtered reads additionally memoise the CONVERTED min/max of a column    *)
+(* chunk inside the shared statistics dict (filter_out_stats): slot states *)
+(* empty -> done.  A two-step publication (raw, then converted: the model   *)
+(* mutant MemoAtomic = FALSE) lets another thread compare against the raw   *)
+(* value.                                                                  *)
+(*                                                                         *)
 (* CONTRACT: every operation returns what it returns alone; no operation   *)
 (* fails because of another; the parent handle is never disturbed.         *)
 (***************************************************************************)
@@ -25,7 +31,8 @@ CONSTANTS Threads,       \* thread ids
           Names,         \* column names, as a sequence (insertion order)
           OpsInit,       \* function Threads -> {"slice", "read", "iter"}
           LookupInit,    \* function Threads -> sequence of names a reader looks up during its run
-          SliceSharesSchemaDicts
+          SliceSharesSchemaDicts,
+          MemoAtomic     \* [TRUE as found] a converted statistic is published into the shared cache in one step
 
 NameSet == {Names[i] : i \in DOMAIN Names}
 Parent == 0                                   \* dict id of the parent's root element
@@ -37,8 +44,10 @@ VARIABLES opsOf,   \* thread -> operation kind (fixed during a behaviour)
           todo,    \* slice: names still to insert; read: lookups left; iter: positions left
           target,  \* dict the thread's operation works on
           seen,    \* iter: size the iteration started with
-          result   \* per thread: "running" | "ok" | "KeyError" | "RuntimeError"
-vars == <<opsOf, lookups, tree, pc, todo, target, seen, result>>
+          memo,    \* shared cache slot of one converted statistic: "empty" | "raw" | "done"
+          got,     \* per thread: what a filtering thread took from the slot
+          result   \* per thread: "running" | "ok" | "KeyError" | "RuntimeError" | "WrongResult"
+vars == <<opsOf, lookups, tree, pc, todo, target, seen, memo, got, result>>
 fixed == <<opsOf, lookups>>
 
 InitDyn ==
@@ -48,6 +57,7 @@ InitDyn ==
   /\ target = [t \in Threads |-> Parent]
   /\ seen = [t \in Threads |-> 0]
   /\ result = [t \in Threads |-> "running"]
+  /\ memo = "empty" /\ got = [t \in Threads |-> "none"]
 Init == opsOf = OpsInit /\ lookups = LookupInit /\ InitDyn
 
 (* ---- slice: pf[i:j] ---- *)
@@ -55,39 +65,39 @@ SliceBegin(t) ==                 \* copy.copy(fmd) [+ private element dicts]; de
   /\ pc[t] = "start" /\ opsOf[t] = "slice"
   /\ target' = [target EXCEPT ![t] = IF SliceSharesSchemaDicts THEN Parent ELSE t]
   /\ pc' = [pc EXCEPT ![t] = "reset"]
-  /\ UNCHANGED <<fixed, tree, todo, seen, result>>
+  /\ UNCHANGED <<fixed, memo, got, tree, todo, seen, result>>
 ResetChildren(t) ==              \* schema_tree: root["children"] = OrderedDict()
   /\ pc[t] = "reset"
   /\ tree' = [tree EXCEPT ![target[t]] = {}]
   /\ todo' = [todo EXCEPT ![t] = Names]
   /\ pc' = [pc EXCEPT ![t] = "fill"]
-  /\ UNCHANGED <<fixed, target, seen, result>>
+  /\ UNCHANGED <<fixed, memo, got, target, seen, result>>
 AddChild(t) ==                   \* root["children"][s.name] = s
   /\ pc[t] = "fill" /\ todo[t] # <<>>
   /\ tree' = [tree EXCEPT ![target[t]] = @ \cup {Head(todo[t])}]
   /\ todo' = [todo EXCEPT ![t] = Tail(todo[t])]
-  /\ UNCHANGED <<fixed, pc, target, seen, result>>
+  /\ UNCHANGED <<fixed, memo, got, pc, target, seen, result>>
 SliceEnd(t) ==                   \* flatten (idempotent re-insertions for flat schemas), _set_attrs done
   /\ pc[t] = "fill" /\ todo[t] = <<>>
   /\ pc' = [pc EXCEPT ![t] = "done"] /\ result' = [result EXCEPT ![t] = "ok"]
-  /\ UNCHANGED <<fixed, tree, todo, target, seen>>
+  /\ UNCHANGED <<fixed, memo, got, tree, todo, target, seen>>
 
 (* ---- read: to_pandas / dtypes / statistics: NLookups lookups of existing names ---- *)
 ReadBegin(t) ==
   /\ pc[t] = "start" /\ opsOf[t] = "read"
   /\ todo' = [todo EXCEPT ![t] = lookups[t]]
   /\ pc' = [pc EXCEPT ![t] = "lookup"]
-  /\ UNCHANGED <<fixed, tree, target, seen, result>>
+  /\ UNCHANGED <<fixed, memo, got, tree, target, seen, result>>
 Lookup(t) ==                     \* schema.schema_element(name): root["children"][part]
   /\ pc[t] = "lookup" /\ todo[t] # <<>>
   /\ IF Head(todo[t]) \in tree[target[t]]
      THEN /\ todo' = [todo EXCEPT ![t] = Tail(todo[t])] /\ UNCHANGED <<fixed, pc, result>>
      ELSE /\ pc' = [pc EXCEPT ![t] = "done"] /\ result' = [result EXCEPT ![t] = "KeyError"] /\ UNCHANGED todo
-  /\ UNCHANGED <<fixed, tree, target, seen>>
+  /\ UNCHANGED <<fixed, memo, got, tree, target, seen>>
 ReadEnd(t) ==
   /\ pc[t] = "lookup" /\ todo[t] = <<>>
   /\ pc' = [pc EXCEPT ![t] = "done"] /\ result' = [result EXCEPT ![t] = "ok"]
-  /\ UNCHANGED <<fixed, tree, todo, target, seen>>
+  /\ UNCHANGED <<fixed, memo, got, tree, todo, target, seen>>
 
 (* ---- iter: pickle / deepcopy walk over root["children"] ---- *)
 IterBegin(t) ==
@@ -95,7 +105,7 @@ IterBegin(t) ==
   /\ seen' = [seen EXCEPT ![t] = Cardinality(tree[target[t]])]
   /\ todo' = [todo EXCEPT ![t] = Names]
   /\ pc' = [pc EXCEPT ![t] = "iter"]
-  /\ UNCHANGED <<fixed, tree, target, result>>
+  /\ UNCHANGED <<fixed, memo, got, tree, target, result>>
 IterStep(t) ==                   \* "dictionary changed size during iteration"
   /\ pc[t] = "iter"
   /\ IF Cardinality(tree[target[t]]) # seen[t]
@@ -103,9 +113,26 @@ IterStep(t) ==                   \* "dictionary changed size during iteration"
      ELSE IF todo[t] = <<>>
           THEN /\ pc' = [pc EXCEPT ![t] = "done"] /\ result' = [result EXCEPT ![t] = "ok"] /\ UNCHANGED todo
           ELSE /\ todo' = [todo EXCEPT ![t] = Tail(todo[t])] /\ UNCHANGED <<fixed, pc, result>>
-  /\ UNCHANGED <<fixed, tree, target, seen>>
+  /\ UNCHANGED <<fixed, memo, got, tree, target, seen>>
 
-Step(t) == \/ SliceBegin(t) \/ ResetChildren(t) \/ AddChild(t) \/ SliceEnd(t)
+(* ---- filter: to_pandas(filters=...) / count(filters=...) on a column with a converted type ---- *)
+FilterMemo(t) ==                 \* filter_out_stats: `if not hasattr(s, "converted_max")`
+  /\ pc[t] = "start" /\ opsOf[t] = "filter"
+  /\ IF memo = "empty"
+     THEN IF MemoAtomic THEN /\ memo' = "done" /\ got' = [got EXCEPT ![t] = "done"] /\ pc' = [pc EXCEPT ![t] = "cmp"]
+                        ELSE /\ memo' = "raw" /\ got' = got /\ pc' = [pc EXCEPT ![t] = "memo2"]
+     ELSE /\ memo' = memo /\ got' = [got EXCEPT ![t] = memo] /\ pc' = [pc EXCEPT ![t] = "cmp"]
+  /\ UNCHANGED <<fixed, tree, todo, target, seen, result>>
+FilterMemo2(t) ==
+  /\ pc[t] = "memo2" /\ memo' = "done" /\ got' = [got EXCEPT ![t] = "done"] /\ pc' = [pc EXCEPT ![t] = "cmp"]
+  /\ UNCHANGED <<fixed, tree, todo, target, seen, result>>
+FilterCmp(t) ==                  \* filter_val(op, val, vmin, vmax) with what was taken from the slot
+  /\ pc[t] = "cmp" /\ pc' = [pc EXCEPT ![t] = "done"]
+  /\ result' = [result EXCEPT ![t] = IF got[t] = "done" THEN "ok" ELSE "WrongResult"]
+  /\ UNCHANGED <<fixed, memo, got, tree, todo, target, seen>>
+
+Step(t) == \/ FilterMemo(t) \/ FilterMemo2(t) \/ FilterCmp(t)
+           \/ SliceBegin(t) \/ ResetChildren(t) \/ AddChild(t) \/ SliceEnd(t)
            \/ ReadBegin(t) \/ Lookup(t) \/ ReadEnd(t)
            \/ IterBegin(t) \/ IterStep(t)
 Next == \E t \in Threads : Step(t)
